@@ -71,7 +71,9 @@ _EX = {}
 def to_case(v):
     toks, lseed, cseed = v
     cseed = family.cfg_seed(cseed)
-    src, r = layout.render(toks, random.Random(lseed), 'C', dict(bs_cmt=0.15, p_bs_trail=0.15))
+    # backslash + blanks + line end is a continuation for gcc everywhere, for uncrustify in code but not at the end of a // comment: a
+    # program holds either such comments or such continuations, never both (no single splice convention would describe the tool)
+    src, r = layout.render(toks, random.Random(lseed), 'C', dict(bs_cmt=0.15) if lseed % 2 else dict(bs_cmt=0.0, p_bs_trail=0.2))
     rng = random.Random(cseed)
     k = cseed % 5
     if k == 0:
